@@ -220,3 +220,41 @@ macro_rules! c20_last_mb {
 }
 c20_last_mb!(c20_last_char_multibyte_7, 3, &[0xF0, 0x9F, 0x98, 0x80]);
 c20_last_mb!(c20_last_char_multibyte_5, 3, &[0xC3, 0xA9]);
+
+// a multi-byte character that is NOT the last one: the successor offset advances by its UTF-8
+// length (not by one byte)
+macro_rules! c20_last_mid {
+    ($name:ident, $mb:expr) => {
+        #[kani::proof]
+        #[kani::unwind(20)]
+        #[kani::stub(InnerHeap::grow, grow_fail)]
+        fn $name() {
+            let mb: &[u8] = $mb;                 // UTF-8 bytes of the character under the cursor
+            let l = 1 + mb.len() + 1;            // ASCII, the character, ASCII
+            let sc = l / 8 + 2;
+            let mut heap = mk_heap(sc + 2, sc + 1);
+            let a: u8 = kani::any();
+            let z: u8 = kani::any();
+            kani::assume(a != 0 && a < 128 && z != 0 && z < 128);
+            unsafe { *heap.inner.ptr.add(8) = a };
+            let mut k = 0;
+            while k < mb.len() {
+                unsafe { *heap.inner.ptr.add(9 + k) = mb[k] };
+                k += 1;
+            }
+            unsafe { *heap.inner.ptr.add(9 + mb.len()) = z };
+            let mut i = l;
+            while i < 8 * sc {
+                unsafe { *heap.inner.ptr.add(8 + i) = 0 };
+                i += 1;
+            }
+            let want_c = std::str::from_utf8(mb).unwrap().chars().next().unwrap();
+            let (c, next) = heap.last_str_char_and_tail(9);
+            assert!(c == want_c);
+            assert!(next == pstr_loc_as_cell!(9 + mb.len()));
+            std::mem::forget(heap);
+        }
+    };
+}
+c20_last_mid!(c20_last_char_multibyte_mid2, &[0xC3, 0xB1]);
+c20_last_mid!(c20_last_char_multibyte_mid4, &[0xF0, 0x9F, 0x98, 0x80]);
